@@ -1237,8 +1237,10 @@ func matchCryptoMap(al, bl []*cmd, f func([]*cmd, []*cmd)) {
 	}
 	mapPeerToSeq := func(seqMap map[int][]*cmd) map[string]int {
 		m := make(map[string]int)
-		for seq, l := range seqMap {
-			m[getPeer(l)] = seq
+		// Process in fixed order to get deterministic result
+		// if some peer occurs multiple times.
+		for _, seq := range slices.Sorted(maps.Keys(seqMap)) {
+			m[getPeer(seqMap[seq])] = seq
 		}
 		return m
 	}
